@@ -5,6 +5,7 @@ mod journal;
 mod perm;
 mod route;
 mod srv;
+mod wire;
 
 fn main() {
     let mode = std::env::args().nth(1).unwrap_or_default();
@@ -20,6 +21,7 @@ fn main() {
         "srv" => rt.block_on(srv::main()),
         "journal-make" => rt.block_on(journal::make()),
         "journal-load" => journal::load(&rt),
+        "wire" => wire::main(),
         "journal-race" => rt.block_on(journal::race()),
         _ => {
             eprintln!("usage: vh <mode>");
